@@ -19,6 +19,8 @@ CONSTANTS
   W_AppendAlwaysTruncates = TRUE
   W_HeartbeatCommitUnbounded = FALSE
   W_QuorumMinusOne = FALSE
+  PreVote = FALSE
+  W_PreVoteRespCountsAsVote = FALSE
 INIT Init
 NEXT Next
 CONSTRAINT NetBound
